@@ -512,6 +512,11 @@ class C01(World):
         if name in TIE_SENSITIVE:
             # coincident faces make "which triangle was hit / how many hits" an ulp-level tie: not a staleness question
             Vf, Ff = np.asarray(fresh.vertices, dtype=np.float64), np.asarray(fresh.faces)
+            if len(Ff) and len(Vf) and Ff.max() < len(Vf) and not np.isfinite(Vf[np.unique(Ff)]).all():
+                # a triangle with an infinite or NaN corner has no place in a spatial index: which candidates the index returns for
+                # such a box is not defined by the data (seen in a soak: after inf -> shear -> NaN the hit order differed from a fresh mesh)
+                ctx.count("skip:ray-query-on-non-finite-triangles")
+                return
             if len(Ff) and len(Vf) and Ff.max() < len(Vf) and np.isfinite(Vf).all():
                 T = Vf[Ff]  # (n,3,3), corners sorted so that winding and index aliases do not matter
                 T = np.round(T / meshes.diag(Vf) * 1e7)
